@@ -1,1 +1,2 @@
 pub mod lang;
+pub mod seqmodel;
